@@ -295,6 +295,30 @@ Theorem C08_btc_sent_ok_sound : forall n sent valids, btc_sent_ok n sent valids 
 Proof. exact btc_sent_ok_sound. Qed.
 Print Assumptions C08_btc_sent_ok_sound.
 
+(* one complete execution of the BTC executor by the relayers of a committee (judge btc_exec_ok): the
+   expected outcome is accepted; acceptance means that every relayer that broadcast anything broadcast a
+   valid signature on EVERY input and - when the execution follows a refresh, "the new committee can
+   sign" - that some relayer did broadcast the signed transfer *)
+Theorem C08_btc_exec_ok_ideal : forall (must : bool) (n k j : nat), Peano.le 1 k ->
+  btc_exec_ok must n (List.repeat (1%nat, List.repeat true n) k ++ List.repeat (0%nat, nil) j) = true.
+Proof. exact btc_exec_ok_ideal. Qed.
+Print Assumptions C08_btc_exec_ok_ideal.
+
+Theorem C08_btc_exec_ok_sound : forall (must : bool) (n : nat) (relayers : list (nat * list bool)),
+  btc_exec_ok must n relayers = true ->
+  (forall r, List.In r relayers -> fst r <> 0%nat ->
+     List.length (snd r) = n /\ forall i, Peano.lt i n -> List.nth i (snd r) false = true) /\
+  (must = true -> exists r, List.In r relayers /\ fst r <> 0%nat /\
+     List.length (snd r) = n /\ forall i, Peano.lt i n -> List.nth i (snd r) false = true).
+Proof. exact btc_exec_ok_sound. Qed.
+Print Assumptions C08_btc_exec_ok_sound.
+
+Theorem C08_btc_exec_must_sign_refutes_silence :
+  btc_exec_ok true 2 ((0, true :: true :: nil) :: (0, true :: true :: nil) :: (0, true :: true :: nil) :: nil)%nat = false /\
+  btc_exec_ok false 2 ((0, true :: true :: nil) :: (0, true :: true :: nil) :: (0, true :: true :: nil) :: nil)%nat = true.
+Proof. exact btc_exec_must_sign_refutes_silence. Qed.
+Print Assumptions C08_btc_exec_must_sign_refutes_silence.
+
 (* counting the results instead ("one result per input") sends a transaction with an unsigned input
    as soon as one input delivers twice *)
 Theorem C08_btc_counting_results_refuted :
